@@ -147,3 +147,11 @@ Definition macinfo_all (dbg be : bool) (section : list byte) (offset : N) : res 
 Definition macros_all (dbg be : bool) (section : list byte) (offset : N) : res (list mev) :=
   let* it := get_macros be section offset in
   macro_run (S (length section)) dbg be it.
+
+(* what a caller observes from one call of next(): an entry, an error, or nothing (Ok(None)) *)
+Definition ev_of (r : res (option mentry)) : option mev :=
+  match r with
+  | Ok (Some e) => Some (EvEntry e)
+  | Err e => Some (EvErr e)
+  | _ => None
+  end.
